@@ -564,6 +564,7 @@ func cutoffOld(bs []blockInfo) int64 {
 type headInfo struct {
 	Min, Max, OOMin, OOMax int64
 	IO, OOO                map[int][]int64
+	Tomb                   [][3]int64 // series, mint, maxt
 	Err                    string
 }
 
@@ -577,8 +578,23 @@ func covered(ivs [][2]int64, t int64) bool {
 }
 
 // oracle runs the real Head.Init(mv) on a private copy of the directory, with the head options
-// the read-only open uses.
+// the read-only open uses: samples and times from a head that was not truncated before Init
+// (like the read-only open's), the replayed tombstones from a second run with
+// Head.Truncate(mv) first (like tsdb.Open's reload: Init's final gc then keeps every replayed
+// tombstone, they all end at or above mv).
 func oracle(src, scratch string, mv int64) headInfo {
+	hi := oracleRun(src, scratch, mv, false)
+	if hi.Err == "" && mv > math.MinInt64 {
+		t := oracleRun(src, scratch, mv, true)
+		if t.Err != "" {
+			hi.Err = t.Err
+		}
+		hi.Tomb = t.Tomb
+	}
+	return hi
+}
+
+func oracleRun(src, scratch string, mv int64, truncateFirst bool) headInfo {
 	dir, err := os.MkdirTemp(scratch, "oracle")
 	if err != nil {
 		panic(err)
@@ -603,29 +619,53 @@ func oracle(src, scratch string, mv int64) headInfo {
 		return headInfo{Err: err.Error()}
 	}
 	defer h.Close()
+	if truncateFirst {
+		if err := h.Truncate(mv); err != nil {
+			return headInfo{Err: err.Error()}
+		}
+	}
 	if err := h.Init(mv); err != nil {
 		return headInfo{Err: err.Error()}
 	}
 	hi := headInfo{Min: h.MinTime(), Max: h.MaxTime(), OOMin: h.MinOOOTime(), OOMax: h.MaxOOOTime(), IO: map[int][]int64{}, OOO: map[int][]int64{}}
 	stones := h.VerifTombstones()
+	if os.Getenv("C53_DEBUG") != "" {
+		fmt.Fprintf(os.Stderr, "oracle(%d,%v) tombstones %v dump %+v\n", mv, truncateFirst, stones, h.VerifDump())
+	}
 	for _, s := range h.VerifDump() {
 		i := sidOf(s.Labels.String())
 		for _, c := range s.InOrder {
 			for _, x := range c.Samples {
-				if !covered(stones[s.Ref], x.T) {
-					hi.IO[i] = append(hi.IO[i], x.T)
-				}
+				hi.IO[i] = append(hi.IO[i], x.T)
 			}
 		}
 		for _, c := range s.OOO {
 			for _, x := range c.Samples {
-				if !covered(stones[s.Ref], x.T) {
-					hi.OOO[i] = append(hi.OOO[i], x.T)
-				}
+				hi.OOO[i] = append(hi.OOO[i], x.T)
 			}
+		}
+		for _, iv := range stones[s.Ref] {
+			hi.Tomb = append(hi.Tomb, [3]int64{int64(i), iv[0], iv[1]})
 		}
 	}
 	return hi
+}
+
+// visible applies the tombstones that survive Init's gc at Head.MinTime() = minT.
+func (h headInfo) visible(minT int64, s int, ts []int64) []int64 {
+	var out []int64
+	for _, t := range ts {
+		hid := false
+		for _, tb := range h.Tomb {
+			if tb[0] == int64(s) && tb[2] >= minT && tb[1] <= t && t <= tb[2] {
+				hid = true
+			}
+		}
+		if !hid {
+			out = append(out, t)
+		}
+	}
+	return out
 }
 
 // ---------------------------------------------------------------- Gallina
@@ -668,7 +708,11 @@ func gOAnswer(ss []tsdbx.Series) string {
 }
 
 func gHead(h headInfo) string {
-	return fmt.Sprintf("(mkH %s %s %s %s %s %s)", z(h.Min), z(h.Max), gSdataT(h.IO), gSdataT(h.OOO), z(h.OOMin), z(h.OOMax))
+	var tb []string
+	for _, t := range h.Tomb {
+		tb = append(tb, fmt.Sprintf("(%s, (%s, %s))", z(t[0]), z(t[1]), z(t[2])))
+	}
+	return fmt.Sprintf("(mkH %s %s %s %s %s %s %s)", z(h.Min), z(h.Max), gSdataT(h.IO), gSdataT(h.OOO), z(h.OOMin), z(h.OOMax), gallina.List(tb))
 }
 
 func gSel(sel []int) string {
@@ -724,6 +768,47 @@ func seriesEqual(a, b []tsdbx.Series) bool {
 		}
 	}
 	return true
+}
+
+// onlyDroppedTombstones: the read-only answer is the read-write answer plus samples that a head
+// tombstone ending below the read-only head's MinTime (dropped by its Init's gc) covers.
+func onlyDroppedTombstones(ro, rw []tsdbx.Series, h headInfo, cut int64) bool {
+	roMinT := h.Min
+	if roMinT < cut {
+		roMinT = cut
+	}
+	in := func(ss []tsdbx.Series) map[[2]int64]bool {
+		m := map[[2]int64]bool{}
+		for _, s := range ss {
+			for _, x := range s.Samples {
+				m[[2]int64{int64(sidOf(s.Labels)), x.T}] = true
+			}
+		}
+		return m
+	}
+	a, b := in(ro), in(rw)
+	for k := range b {
+		if !a[k] {
+			return false
+		}
+	}
+	extra := false
+	for k := range a {
+		if b[k] {
+			continue
+		}
+		extra = true
+		ok := false
+		for _, tb := range h.Tomb {
+			if tb[0] == k[0] && tb[2] < roMinT && tb[1] <= k[1] && k[1] <= tb[2] {
+				ok = true
+			}
+		}
+		if !ok {
+			return false
+		}
+	}
+	return extra
 }
 
 func nonEmpty(a []tsdbx.Series) []tsdbx.Series {
@@ -895,8 +980,10 @@ func runCase(id int, name string, h history, fq []query, g *gen.Rand, outDir str
 	if err != nil {
 		panic(fmt.Sprintf("case %d: read-write open: %v", id, err))
 	}
-	_, _, _ = rw.HeadTimes()
 	rwMin, _, rwMV := rw.HeadTimes()
+	if os.Getenv("C53_DEBUG") != "" {
+		fmt.Fprintf(os.Stderr, "case %d rw head: %+v\n tombstones %v\n oracle %+v\n", id, rw.HeadDump(), rw.HeadTombstones(), hN)
+	}
 	rwRes := make([][]tsdbx.Series, len(qs))
 	for i, q := range qs {
 		if q.Chunk {
@@ -928,7 +1015,7 @@ func runCase(id int, name string, h history, fq []query, g *gen.Rand, outDir str
 	in := newInterner()
 	before := in.snapshot(root)
 	var gSess []string
-	sessFail, belowFail, otherFail := false, false, false
+	sessFail, belowFail, tombFail, otherFail := false, false, false, false
 	for i, q := range qs {
 		sroot := ""
 		if q.Outside {
@@ -980,10 +1067,14 @@ func runCase(id int, name string, h history, fq []query, g *gen.Rand, outDir str
 		}
 		if !seriesEqual(res, rwRes[i]) {
 			sessFail = true
-			if q.Maxt < cNew {
+			switch {
+			case q.Maxt < cNew:
 				belowFail = true
 				meta.Hit("ro!=rw:maxt-below-cutoff")
-			} else {
+			case onlyDroppedTombstones(res, rwRes[i], hN, cNew):
+				tombFail = true
+				meta.Hit("ro!=rw:tombstone-dropped-by-read-only-head")
+			default:
 				otherFail = true
 				meta.Hit("ro!=rw:other")
 			}
@@ -1008,8 +1099,15 @@ func runCase(id int, name string, h history, fq []query, g *gen.Rand, outDir str
 	sdesc := desc
 	sdesc.Part = "sessions"
 	sdesc.Shape = "clean"
-	if belowFail && !otherFail {
-		sdesc.Shape = "ro-skips-head-when-blocks-cover-maxt"
+	if (belowFail || tombFail) && !otherFail {
+		var keys []string
+		if belowFail {
+			keys = append(keys, "ro-skips-head-when-blocks-cover-maxt")
+		}
+		if tombFail {
+			keys = append(keys, "ro-drops-head-tombstone-below-head-mintime")
+		}
+		sdesc.Shape = strings.Join(keys, "+")
 	}
 	dirPath := in.path("ro")
 	cf.Add(fmt.Sprintf("(mkCase %s %s %s %s %s %s %s %s %s false None)",
@@ -1071,9 +1169,13 @@ func runCase(id int, name string, h history, fq []query, g *gen.Rand, outDir str
 	lap("flush")
 	// expected head data, for the shape only (holds decides in Coq)
 	want := map[int]map[int64]bool{}
+	roMinT := hN.Min
+	if roMinT < cNew {
+		roMinT = cNew
+	}
 	for _, m := range []map[int][]int64{hN.IO, hN.OOO} {
 		for s, ts := range m {
-			for _, t := range ts {
+			for _, t := range hN.visible(roMinT, s, ts) {
 				if want[s] == nil {
 					want[s] = map[int64]bool{}
 				}
